@@ -7,6 +7,12 @@ props = [json.loads(l) for l in open('/verif/properties.jsonl')]
 
 # id -> (technique, level text, level note)
 CHECKS = {
+ "C04": ("explicit-state BFS to closure of real sender x real receiver (lock-step) and of the receiver alone, with ghost intended-label / nearest-start-label monitors",
+         "A: the product of the real Encapsulator and real Decapsulator, every produced packet fed at once, is closed under send(5 labels x complete / encap_ext complete / first fragment on two ids via encap and encap_ext / 4 failing calls), zero label, continuation, reset of both sides, disable, enable, enable-with-max; every status the receiver reports must carry the label the sender intended and every PDU with an explicit/broadcast label must be delivered. B: the receiver alone is closed under 27 packets (all label kinds incl. re-use on complete and first fragments, continuation packets, rejected and malformed start packets, padding) and reset; a resolved re-use label must equal the label of the nearest preceding start/complete packet of the frame.",
+         "trusted: ghost monitors (wire_last, intended label); label alphabet of 5 letters; 2-fragment trains"),
+ "C13": ("exhaustive enumeration: constructor over all ids x lengths; all extension chains x protocol types x labels x every buffer size through real encap_ext, reference parser, real receivers with full/partial/no knowledge",
+         "Extension::new is executed for all 65536 ids x data lengths 0..=10. Every chain of 1..=3 (thorough 1..=4) extensions over a 10-letter alphabet x 7 protocol types x 4 labels x PDU lengths {0,1,7} x every buffer size 0..=complete size+3 (forcing fragmentation at every offset in and after the extension area) goes through the real encap_ext; every Ok is decoded by the reference parser, delivered by a real receiver knowing the ids used (completing fragmented PDUs with encap_frag, storage = PDU length and +8), and must be dropped with exactly its own length consumed by receivers missing any used mandatory id, also when bytes follow.",
+         "trusted: finality of a mandatory id is defined per call as 'last extension and protocol type == id' (the sender interface's own notion); chains using one id both ways are skipped"),
  "C02": ("explicit-state exploration to closure of sender-progress x real-receiver graphs, one per case",
          "For every case (PDU length 0..=40, thorough 0..=96; label kind incl. a first fragment replaced by re-use; fragment id; storage exactly sufficient and larger) the graph whose ops are 'offer an output buffer of size b' for the complete buffer alphabet 0..=p+24 and beyond 4097 is explored to closure, so every finite buffer schedule is covered; PDUs that must be fragmented (4094..9000, thorough up to the 16-bit limit) are explored by position with the receiver snapshot checked equal to the one the position determines. Every packet goes through the real decap; delivery, metadata, consumed lengths and a strictly decreasing liveness rank for buffers >= 13 are checked.",
          "trusted: 4 content patterns, 3 protocol types; large regime keyed by position (sound because the receiver snapshot is asserted to be a function of the position on every transition)"),
